@@ -242,6 +242,11 @@ def run_readback(ctx):
 
         rb("build_user", lambda: URL.build(scheme="http", host="h", user=t), lambda u: u.user, t)
         rb("build_password", lambda: URL.build(scheme="http", host="h", user="u", password=t), lambda u: u.password, t)
+        rb("build_password_nouser", lambda: URL.build(scheme="http", host="h", password=t), lambda u: u.password, t)
+        rb("build_password_emptyuser", lambda: URL.build(scheme="http", host="h", user="", password=t), lambda u: u.password, t)
+        rb("build_user_and_password", lambda: URL.build(scheme="http", host="h", user=t, password=t), lambda u: (u.user, u.password), (t, t))
+        rb("build_authority_userinfo", lambda: URL.build(scheme="http", authority="x@h").with_user(t).with_password(t[::-1]), lambda u: (u.user, u.password), (t, t[::-1]))
+        rb("with_password_nouser", lambda: URL("http://example.com/").with_password(t), lambda u: u.password, t)
         rb("build_fragment", lambda: URL.build(scheme="http", host="h", fragment=t), lambda u: u.fragment, t)
         rb("with_user", lambda: base.with_user(t), lambda u: u.user, t)
         rb("with_password", lambda: base.with_password(t), lambda u: u.password, t)
